@@ -29,6 +29,9 @@ enum Op {
 enum HOp {
     Do(Op),
     Kill(u64, Op),
+    /// the process that holds the database is killed outright (SIGKILL) after every operation so far has been
+    /// acknowledged; the database is then opened by another process
+    Sigkill,
 }
 
 impl Op {
@@ -59,6 +62,8 @@ impl HOp {
         match self {
             HOp::Do(o) => format!("(HOp {})", o.coq()),
             HOp::Kill(k, o) => format!("(HKill {} {})", k, o.coq()),
+            // in the model: nothing of a pending operation is written, the database is opened again
+            HOp::Sigkill => "(HKill 0 Reopen)".to_string(),
         }
     }
 }
@@ -91,68 +96,209 @@ fn perform<N: NodePersistence>(node: &mut N, id: N::LaneId, op: &Op) -> Result<S
     })
 }
 
+fn hex(b: &[u8]) -> String {
+    b.iter().map(|x| format!("{:02x}", x)).collect()
+}
+fn unhex(s: &str) -> Vec<u8> {
+    (0..s.len() / 2).map(|i| u8::from_str_radix(&s[2 * i..2 * i + 2], 16).unwrap()).collect()
+}
+impl Op {
+    fn line(&self) -> String {
+        match self {
+            Op::GetValue(a, n) => format!("GET\t{}\t{}", a, n),
+            Op::PutValue(a, n, v) => format!("PUT\t{}\t{}\t{}", a, n, hex(v)),
+            Op::DeleteValue(a, n) => format!("DEL\t{}\t{}", a, n),
+            Op::UpdateMap(a, n, k, v) => format!("UPD\t{}\t{}\t{}\t{}", a, n, hex(k), hex(v)),
+            Op::RemoveMap(a, n, k) => format!("REM\t{}\t{}\t{}", a, n, hex(k)),
+            Op::ClearMap(a, n) => format!("CLR\t{}\t{}", a, n),
+            Op::ReadMap(a, n) => format!("READ\t{}\t{}", a, n),
+            Op::Open(a) => format!("OPEN\t{}", a),
+            Op::Close(a) => format!("CLOSE\t{}", a),
+            Op::Reopen => "REOPEN".to_string(),
+        }
+    }
+    fn parse(f: &[&str]) -> Op {
+        let s = |i: usize| f.get(i).copied().unwrap_or("").to_string();
+        match f[0] {
+            "GET" => Op::GetValue(s(1), s(2)),
+            "PUT" => Op::PutValue(s(1), s(2), unhex(&s(3))),
+            "DEL" => Op::DeleteValue(s(1), s(2)),
+            "UPD" => Op::UpdateMap(s(1), s(2), unhex(&s(3)), unhex(&s(4))),
+            "REM" => Op::RemoveMap(s(1), s(2), unhex(&s(3))),
+            "CLR" => Op::ClearMap(s(1), s(2)),
+            "READ" => Op::ReadMap(s(1), s(2)),
+            "OPEN" => Op::Open(s(1)),
+            "CLOSE" => Op::Close(s(1)),
+            _ => Op::Reopen,
+        }
+    }
+}
+impl HOp {
+    fn line(&self) -> String {
+        match self {
+            HOp::Do(o) => format!("DO\t{}", o.line()),
+            HOp::Kill(k, o) => format!("KILL\t{}\t{}", k, o.line()),
+            HOp::Sigkill => "SIGKILL".to_string(),
+        }
+    }
+    fn parse(line: &str) -> HOp {
+        let f: Vec<&str> = line.trim_end_matches('\n').split('\t').collect();
+        match f[0] {
+            "DO" => HOp::Do(Op::parse(&f[1..])),
+            "KILL" => HOp::Kill(f[1].parse().unwrap(), Op::parse(&f[2..])),
+            _ => HOp::Sigkill,
+        }
+    }
+}
+
+/// One operation on an open session (a plane and the node stores opened on it).
+fn exec_hop<P: PlanePersistence>(mk: &dyn Fn() -> P, plane: &mut Option<P>, nodes: &mut BTreeMap<String, P::Node>, h: &HOp) -> Result<String, String> {
+    let skipped = "(None, RSkipped)".to_string();
+    if plane.is_none() {
+        *plane = Some(mk());
+    }
+    Ok(match h {
+        HOp::Do(Op::Open(a)) => {
+            if nodes.contains_key(a) {
+                skipped
+            } else {
+                nodes.insert(a.clone(), block_on(plane.as_ref().unwrap().node_store(a)).map_err(|e| format!("node_store: {:?}", e))?);
+                "(None, RUnit)".into()
+            }
+        }
+        HOp::Do(Op::Close(a)) => {
+            if nodes.remove(a).is_some() {
+                "(None, RUnit)".into()
+            } else {
+                skipped
+            }
+        }
+        HOp::Do(Op::Reopen) => {
+            nodes.clear();
+            *plane = None;
+            *plane = Some(mk());
+            "(None, RUnit)".into()
+        }
+        HOp::Do(op) => {
+            let (a, name) = op.target().unwrap();
+            match nodes.get_mut(a) {
+                Some(n) => {
+                    let id = n.id_for(name).map_err(|e| format!("id_for without a kill failed: {:?}", e))?;
+                    let r = perform(n, id, op).map_err(|_| format!("{:?} without a kill failed", op))?;
+                    format!("(Some {:?}%N, {})", id, r)
+                }
+                None => skipped,
+            }
+        }
+        HOp::Kill(k, op) => {
+            if let Some((a, name)) = op.target() {
+                if let Some(n) = nodes.get_mut(a) {
+                    set_write_budget(*k as i64);
+                    if let Ok(id) = n.id_for(name) {
+                        let _ = perform(n, id, op);
+                    }
+                    set_write_budget(i64::MAX);
+                }
+            }
+            // the process is as good as gone: nothing is closed in an orderly way, the database is opened again
+            nodes.clear();
+            *plane = None;
+            *plane = Some(mk());
+            skipped
+        }
+        HOp::Sigkill => skipped,
+    })
+}
+
+/// The child: holds the database, carries out what it is told on stdin, acknowledges on stdout, and waits to be killed.
+fn child_main(dir: PathBuf) -> ! {
+    use std::io::{BufRead, Write};
+    set_write_budget(i64::MAX);
+    let d = dir.clone();
+    let mk = move || open_rocks_store(Some(d.clone()), default_db_opts()).expect("open_rocks_store").open_plane("plane").expect("open_plane");
+    let mut plane = None;
+    let mut nodes = BTreeMap::new();
+    let stdin = std::io::stdin();
+    let mut out = std::io::stdout();
+    for line in stdin.lock().lines() {
+        let line = line.unwrap();
+        let r = match exec_hop(&mk, &mut plane, &mut nodes, &HOp::parse(&line)) {
+            Ok(o) => format!("OK\t{}", o),
+            Err(e) => format!("ERR\t{}", e.replace('\n', " ")),
+        };
+        writeln!(out, "{}", r).unwrap();
+        out.flush().unwrap();
+    }
+    loop {
+        std::thread::sleep(std::time::Duration::from_secs(3600));
+    }
+}
+
+struct ChildSession {
+    child: std::process::Child,
+    stdin: std::process::ChildStdin,
+    stdout: std::io::BufReader<std::process::ChildStdout>,
+}
+
 fn run(dir: &PathBuf, hops: &[HOp]) -> Result<Vec<String>, String> {
+    use std::io::{BufRead, Write};
     let _ = std::fs::remove_dir_all(dir);
     std::fs::create_dir_all(dir).unwrap();
     set_write_budget(i64::MAX);
     let d = dir.clone();
     let mk = move || open_rocks_store(Some(d.clone()), default_db_opts()).expect("open_rocks_store").open_plane("plane").expect("open_plane");
-    let mut plane = Some(mk());
+    let mut plane = None;
     let mut nodes = BTreeMap::new();
     let mut outs = vec![];
-    let skipped = "(None, RSkipped)".to_string();
-    for h in hops {
-        let o = match h {
-            HOp::Do(Op::Open(a)) => {
-                if nodes.contains_key(a) {
-                    skipped.clone()
-                } else {
-                    nodes.insert(a.clone(), block_on(plane.as_ref().unwrap().node_store(a)).map_err(|e| format!("node_store: {:?}", e))?);
-                    "(None, RUnit)".into()
-                }
+    let mut child: Option<ChildSession> = None;
+    let spawn = |dir: &PathBuf| -> Result<ChildSession, String> {
+        let mut c = std::process::Command::new(std::env::current_exe().map_err(|e| e.to_string())?)
+            .arg("--child")
+            .arg(dir)
+            .stdin(std::process::Stdio::piped())
+            .stdout(std::process::Stdio::piped())
+            .stderr(std::process::Stdio::null())
+            .spawn()
+            .map_err(|e| format!("spawning the child failed: {}", e))?;
+        let stdin = c.stdin.take().unwrap();
+        let stdout = std::io::BufReader::new(c.stdout.take().unwrap());
+        Ok(ChildSession { child: c, stdin, stdout })
+    };
+    for (i, h) in hops.iter().enumerate() {
+        // everything before a SIGKILL is done by a process of its own, which is then killed
+        let kill_ahead = hops[i..].iter().any(|x| matches!(x, HOp::Sigkill));
+        if matches!(h, HOp::Sigkill) {
+            if let Some(mut c) = child.take() {
+                c.child.kill().map_err(|e| format!("kill: {}", e))?;
+                let _ = c.child.wait();
             }
-            HOp::Do(Op::Close(a)) => {
-                if nodes.remove(a).is_some() {
-                    "(None, RUnit)".into()
-                } else {
-                    skipped.clone()
-                }
-            }
-            HOp::Do(Op::Reopen) => {
+            outs.push("(None, RSkipped)".to_string());
+            continue;
+        }
+        if kill_ahead {
+            if child.is_none() {
+                // the database is held by one process at a time
                 nodes.clear();
                 plane = None;
-                plane = Some(mk());
-                "(None, RUnit)".into()
+                child = Some(spawn(dir)?);
             }
-            HOp::Do(op) => {
-                let (a, name) = op.target().unwrap();
-                match nodes.get_mut(a) {
-                    Some(n) => {
-                        let id = n.id_for(name).map_err(|e| format!("id_for without a kill failed: {:?}", e))?;
-                        let r = perform(n, id, op).map_err(|_| format!("{:?} without a kill failed", op))?;
-                        format!("(Some {:?}%N, {})", id, r)
-                    }
-                    None => skipped.clone(),
-                }
+            let c = child.as_mut().unwrap();
+            writeln!(c.stdin, "{}", h.line()).map_err(|e| format!("child stdin: {}", e))?;
+            c.stdin.flush().map_err(|e| format!("child stdin: {}", e))?;
+            let mut answer = String::new();
+            c.stdout.read_line(&mut answer).map_err(|e| format!("child stdout: {}", e))?;
+            match answer.trim_end_matches('\n').split_once('\t') {
+                Some(("OK", o)) => outs.push(o.to_string()),
+                Some(("ERR", e)) => return Err(format!("in the child: {}", e)),
+                _ => return Err(format!("the child answered {:?}", answer)),
             }
-            HOp::Kill(k, op) => {
-                if let Some((a, name)) = op.target() {
-                    if let Some(n) = nodes.get_mut(a) {
-                        set_write_budget(*k as i64);
-                        if let Ok(id) = n.id_for(name) {
-                            let _ = perform(n, id, op);
-                        }
-                        set_write_budget(i64::MAX);
-                    }
-                }
-                // the process is gone: nothing is closed in an orderly way, the database is opened again
-                nodes.clear();
-                plane = None;
-                plane = Some(mk());
-                skipped.clone()
-            }
-        };
-        outs.push(o);
+        } else {
+            outs.push(exec_hop(&mk, &mut plane, &mut nodes, h)?);
+        }
+    }
+    if let Some(mut c) = child.take() {
+        let _ = c.child.kill();
+        let _ = c.child.wait();
     }
     drop(nodes);
     drop(plane);
@@ -163,7 +309,7 @@ fn run(dir: &PathBuf, hops: &[HOp]) -> Result<Vec<String>, String> {
 const AGENTS: &[&str] = &["/a", "/b", "/unit"];
 const ITEMS: &[&str] = &["v", "w", "m", "n", "p", "q", "r", "s"];
 
-fn gen(rng: &mut Rng) -> Vec<HOp> {
+fn gen(rng: &mut Rng, sigkills: bool) -> Vec<HOp> {
     let mut hops = vec![];
     let agent = |rng: &mut Rng| AGENTS[rng.usize_below(AGENTS.len())].to_string();
     // the first items of ITEMS are values, the rest maps: kinds never mix on one item
@@ -197,6 +343,14 @@ fn gen(rng: &mut Rng) -> Vec<HOp> {
             0 => hops.push(HOp::Do(Op::Open(agent(rng)))),
             1 => hops.push(HOp::Do(Op::Close(agent(rng)))),
             2 => hops.push(HOp::Do(Op::Reopen)),
+            11 if sigkills => {
+                hops.push(HOp::Sigkill);
+                for a in AGENTS {
+                    if rng.below(5) != 0 {
+                        hops.push(HOp::Do(Op::Open(a.to_string())));
+                    }
+                }
+            }
             3..=5 => {
                 let a = agent(rng);
                 let op = item_op(rng, a);
@@ -227,9 +381,12 @@ fn gen(rng: &mut Rng) -> Vec<HOp> {
 
 fn main() {
     let args = parse_args();
+    if let Some(dir) = args.extra.get("child") {
+        child_main(PathBuf::from(dir));
+    }
     silence_panics();
     let mut rng = Rng::new(args.seed ^ 0xc13_dead);
-    let mut w = CaseWriter::new("From SwimV Require Import Lib.Hex Model.Stores.\nOpen Scope N_scope.", "kcase", &["kill_corr_bad", "kill_oracle_bad"], args.shards);
+    let mut w = CaseWriter::new("From SwimV Require Import Lib.Hex Model.Stores.\nOpen Scope N_scope.", "kcase", &["kill_corr_bad", "kill_oracle_bad", "kill_spec_bad"], args.shards);
     let mut kinds: BTreeMap<String, u64> = BTreeMap::new();
     let mut failures: Vec<String> = vec![];
     let mut nontrivial = 0u64;
@@ -242,14 +399,23 @@ fn main() {
     for k in 0..4 {
         corpus.push(vec![o("/a"), HOp::Do(put("/a", "v", 1)), HOp::Kill(k, put("/a", "w", 2)), o("/a"), HOp::Do(put("/a", "m", 3)), HOp::Do(put("/a", "w", 4)), HOp::Do(Op::GetValue("/a".into(), "v".into())), HOp::Do(Op::GetValue("/a".into(), "m".into()))]);
     }
-    for _ in 0..args.cases {
-        corpus.push(gen(&mut rng));
+    // an acknowledged clear (and update, remove, put) must survive the death of the process
+    let upd = |a: &str, n: &str, k: u8, v: u8| HOp::Do(Op::UpdateMap(a.to_string(), n.to_string(), vec![k], vec![v]));
+    corpus.push(vec![o("/a"), upd("/a", "m", 1, 1), upd("/a", "m", 2, 2), HOp::Do(Op::ClearMap("/a".into(), "m".into())), upd("/a", "m", 3, 3), HOp::Do(put("/a", "v", 9)), HOp::Sigkill, o("/a"), HOp::Do(Op::ReadMap("/a".into(), "m".into())), HOp::Do(Op::GetValue("/a".into(), "v".into()))]);
+    corpus.push(vec![o("/a"), upd("/a", "m", 1, 1), HOp::Do(Op::RemoveMap("/a".into(), "m".into(), vec![1])), HOp::Do(put("/a", "v", 9)), HOp::Do(Op::DeleteValue("/a".into(), "v".into())), HOp::Sigkill, o("/a"), HOp::Do(put("/a", "w", 1)), HOp::Do(Op::ReadMap("/a".into(), "m".into())), HOp::Do(Op::GetValue("/a".into(), "v".into()))]);
+    for i in 0..args.cases {
+        // a third of the histories kill the process outright (a child holds the database)
+        let sk = i % 3 == 0;
+        corpus.push(gen(&mut rng, sk));
     }
     for hops in corpus {
-        let kills = hops.iter().filter(|h| matches!(h, HOp::Kill(..))).count();
+        let kills = hops.iter().filter(|h| matches!(h, HOp::Kill(..) | HOp::Sigkill)).count();
         for h in &hops {
             if let HOp::Kill(k, _) = h {
                 *kinds.entry(format!("kill_after_{}_writes", k)).or_default() += 1;
+            }
+            if matches!(h, HOp::Sigkill) {
+                *kinds.entry("process_killed_outright".into()).or_default() += 1;
             }
         }
         if kills > 0 {
@@ -270,7 +436,7 @@ fn main() {
     let meta = J::obj(vec![
         ("evaluations", J::I(w.len() as i128)),
         ("distinct_nontrivial", J::I(nontrivial as i128)),
-        ("rule", J::s("RocksDB back-end (open_rocks_store on a temporary directory), 3 agents x 8 items (2 values, 6 maps), histories of open / close / reopen and get / put / delete / update / remove / clear / read_map in which a quarter of the item operations are cut off after 0, 1, 2 or 3 writes to the engine (hook write budget: further writes fail unapplied; a new name writes the counter, its own entry, then the operation's entry), the database being closed and opened again afterwards; every history ends by reading everything back after a reopen; compared with Model/Stores.v rocks_hstep, and the identifiers seen over the whole history must be one per name and never shared by two names; non-trivial = at least one kill")),
+        ("rule", J::s("RocksDB back-end (open_rocks_store on a temporary directory), 3 agents x 8 items (2 values, 6 maps), histories of open / close / reopen and get / put / delete / update / remove / clear / read_map in which a quarter of the item operations are cut off after 0, 1, 2 or 3 writes to the engine (hook write budget: further writes fail unapplied; a new name writes the counter, its own entry, then the operation's entry), the database being closed and opened again afterwards; in a third of the histories the database is held by a child process that carries out the operations, acknowledges each, and is killed outright (SIGKILL) at generated moments, the next process opening the database after it: every acknowledged operation must still be there; every history ends by reading everything back after a reopen; compared with Model/Stores.v rocks_hstep, and the identifiers seen over the whole history must be one per name and never shared by two names; non-trivial = at least one kill")),
         ("structures", J::counts(&kinds)),
         ("samples", J::A(vec![])),
         ("direct_failures", J::A(failures.iter().take(40).map(|f| J::s(f.chars().take(600).collect::<String>())).collect())),
